@@ -363,6 +363,33 @@ def run(chk):
                         consistency(chk, name, kw3, g3, "rebuilt from another subset")
     if not chk.failures:
         built += boundary_and_order_cases(chk, rng)
+    # histories with refusals in between: resolution is a function of the given values alone - a groove that was built is built again, with the
+    # same contour, after any number of infeasible requests to the same class (a solver must not remember where a failed search ended)
+    refused = 0
+    for name, kw in CATALOGUE:
+        if chk.failures:
+            break
+        try:
+            g0 = build(name, kw)
+        except Exception:      # noqa  (reported above)
+            continue
+        for k in [k for k in kw if k in LENGTH_KEYS]:
+            for f in (50.0, 0.02, 7.0):
+                try:
+                    build(name, dict(kw, **{k: kw[k] * f}))
+                except Exception:      # noqa
+                    refused += 1
+        chk.cov['evaluations'] += 1
+        try:
+            g1 = build(name, kw)
+        except Exception as e:      # noqa
+            chk.fail('history-dependent', f"{name}{kw} was built, then infeasible variants of it (one length x50, x0.02, x7) were requested, then the same values again: "
+                     f"now rejected ({type(e).__name__}: {str(e)[:100]})", {'groove': name, 'kwargs': kw})
+            break
+        if not same_contour(g0, g1, 1e-9 * max(g0.usable_width, g0.depth)):
+            chk.fail('history-dependent', f"{name}{kw} built before and after a series of infeasible requests gives two different contours", {'groove': name, 'kwargs': kw})
+            break
+    chk.x_stats['refusals_between_rebuilds'] = refused
     chk.cov['distinct_nontrivial'] += built
     chk.sample({'groove': 'FalseRoundGroove', 'kwargs': {'depth': 31.8646, 'r1': 5, 'r2': 38, 'flank_height': 7.037185254850074, 'pad_angle': 30}})
     chk.cov['rule'] = (f"{built} constructions: the catalogue (every solver-backed class x every defining subset listed) built in order {rounds} times with pad angles "
